@@ -24,7 +24,7 @@ def run(tier):
     thorough = tier == "thorough"
     drv = mc.drivers()
     jobs = [("ptr", "mask"), ("ptr", "lp16"), ("ptr", "lp64u"), ("chain", "mask"), ("chain", "finder"), ("chain", "lp16"),
-            ("chain", "lp64u"), ("chain", "gd")]
+            ("chain", "lp64u"), ("chain", "gd"), ("chain", "hostptr")]
     if thorough:
         jobs += [("ptr", "finder"), ("ptr", "lp16_finder"), ("chain", "lp16_finder")]
 
